@@ -246,6 +246,8 @@ impl FeoxStore {
                         .checked_add(1)
                         .ok_or(FeoxError::OlderTimestamp)?,
                 );
+                #[cfg(feature = "verif")]
+                crate::verif::timestamp(timestamp);
                 let expiry = ttl_expiry(now, ttl_seconds);
                 let resident = old_record.get_value();
                 let cache_entry = resident.is_none().then(|| {
@@ -289,9 +291,13 @@ impl FeoxStore {
             })
             .ok_or(FeoxError::KeyNotFound)??;
 
+        #[cfg(feature = "verif")]
+        crate::verif::point("replaced", 0, 0);
         if !cache_guarded {
             self.remove_cached(key, &old_record);
         }
+        #[cfg(feature = "verif")]
+        crate::verif::point("before_enqueue", 0, 0);
 
         if let Some(write_buffer) = self.write_buffer.as_ref() {
             write_buffer.add_replacement(new_record, old_record)?;
